@@ -51,7 +51,7 @@ ASSUMPTIONS = [
 SETTINGS = {'disk_min_file_size': 8}
 EXPECTED_SIGS = ('iter_not_atomic', 'fanout_commit_not_atomic')
 TRACE_RECORDS = []
-OK_EXC = ('Timeout', 'KeyError', 'TypeError', 'IndexError', 'ValueError')
+OK_EXC = ('Timeout', 'KeyError', 'TypeError', 'IndexError', 'ValueError', 'ProgrammingError', 'InterfaceError')
 WRITE_SQL = ('sql:INSERT', 'sql:UPDATE', 'sql:DELETE', 'sql:UPDATE-SETTINGS', 'sql:COMMIT', 'sql:ROLLBACK')
 RELEASING = ('set', 'setitem', 'add', 'delete', 'delitem', 'incr', 'decr', 'pop', 'pull', 'popleft', 'popitem', 'clear',
              'setdefault', 'update', 'rotate', 'reverse', 'remove')
@@ -563,6 +563,13 @@ def corpus():
                        {'op': 'raise_in_block', 'base': True}, {'op': 'end_block'}, {'op': 'set', 'key': 'd', 'value': 4, 'retry': False}]
                       + readback('cache', ['a', 'c', 'd']), [{'op': 'set', 'key': 'e', 'value': 5, 'retry': False}, {'op': 'get', 'key': 'a'}, {'op': 'get', 'key': 'd'}]],
          'schedule': [0] * 60 + [1] * 20, 'flavour': 'abort_then_work', 'shards': 2},
+        # an inner call raises AFTER it announced the removal of the file it was going to replace (a tag SQLite cannot bind makes the
+        # UPDATE fail), the program catches the exception and the block commits: the row still refers to the old file, which must stay
+        {'check': 'block', 'kind': 'cache', 'mode': 'own', 'setup': [{'op': 'set', 'key': 'k', 'value': BIG}, {'op': 'set', 'key': 'm', 'value': BIG2}],
+         'programs': [[{'op': 'begin_block'}, {'op': 'set', 'key': 'k', 'value': 1, 'tag': [1], 'retry': t}, {'op': 'add', 'key': 'n', 'value': 3, 'tag': {'x': 1}, 'retry': t},
+                       {'op': 'set', 'key': 'm', 'value': 2, 'retry': t}, {'op': 'end_block'}] + readback('cache', ['k', 'm', 'n']),
+                      [{'op': 'get', 'key': 'k'}]],
+         'schedule': [0] * 80 + [1] * 10, 'flavour': 'commit', 'shards': 2},
         # an exception leaves a NESTED block and is caught inside the enclosing one (which then commits everything); a later block
         # of the same thread raises and must be rolled back as a whole
         {'check': 'block', 'kind': 'cache', 'mode': 'own', 'setup': [{'op': 'set', 'key': 'a', 'value': 1}],
